@@ -1248,7 +1248,8 @@ class Srv:
                             res.ok("R9.cancel", inst, where(b, ent), "signals the MPC task, which sends the notification")
                 else:
                     # arms that own a client: send_cancel exactly once before replying Ok
-                    okr = self.blocks(h, K("reply_ok"))
+                    # (a reply that forwards a Result of unknown variant - `ret.send(send_cancel(..).await)` - may be Ok)
+                    okr = self.blocks(h, K("reply_ok")) | self.blocks(h, K("reply"))
                     reach = b.reachable_from(ent)
                     ok_reach = reach & okr
                     once = len(sc_blocks) == 1 or all(not (s2 in b.reachable_from(b.succ()[s1][0]) if b.succ()[s1] else False) for s1 in sc_blocks for s2 in sc_blocks)
